@@ -130,6 +130,8 @@ def bounded_standins(pid, tier, seed):
     ensure_venv()
     out = os.path.join(VERIF, "replays", f".l3-{pid}.json")
     os.makedirs(os.path.dirname(out), exist_ok=True)
+    if os.path.exists(out):
+        os.remove(out)  # never read a result left by an earlier run
     try:
         p = subprocess.run([PY, script, pid, "--tier", tier, "--seed", str(seed), "--out", out], capture_output=True, text=True, timeout=3000 if tier == "thorough" else 900,
                            env=dict(os.environ, FJVC_REPO=REPO, PYTHONPATH=REPO, JAX_PLATFORMS="cpu"))
@@ -137,7 +139,7 @@ def bounded_standins(pid, tier, seed):
         return dict(ran=False, reason="L3 timeout")
     res = load_json(out, None)
     if res is None:
-        return dict(ran=False, reason="L3 harness crashed: " + (p.stderr or "")[-800:])
+        return dict(ran=True, evaluations=0, distinct_nontrivial=0, rule="harness crashed", violations=[], samples=[], harness_errors=["L3 harness crashed: " + (p.stderr or "")[-800:]])
     res["ran"] = True
     return res
 
